@@ -143,7 +143,7 @@ R3Reorder == e.ev = "LockOK" /\ closed /\ e.g \notin late /\ e.l \in {"wf", "msg
 Consume == /\ l <= Len(Log) /\ l' = l + 1 /\ sil' = 0
            /\ cpost' = IF e.ev = "TraceReset" THEN FALSE ELSE (cpost \/ e.ev = "ClosedPost")
            /\ late' = IF e.ev = "TraceReset" THEN {} ELSE IF e.ev = "LockBegin" THEN (IF cpost THEN late \cup {e.g} ELSE late \ {e.g}) ELSE late
-           /\ skip' = IF e.ev = "TraceReset" THEN FALSE ELSE (skip \/ R3Reorder)
+           /\ skip' = IF e.ev = "TraceReset" THEN FALSE ELSE (skip \/ R3Reorder \/ e.ev = "Aborted")   \* Aborted: the harness gave up on the scenario
            /\ nskip' = IF e.ev # "TraceReset" /\ ~skip /\ R3Reorder THEN nskip + 1 ELSE nskip
            /\ win' = IF e.ev = "TraceReset" THEN "none" ELSE IF e.ev = "ClosedPre" /\ q \in {R, K, AC, "TL"} THEN q ELSE IF e.ev = "ClosedPost" /\ win = q THEN "none" ELSE win
            /\ rel' = IF e.ev = "TraceReset" THEN {} ELSE IF e.ev \in {"CloseExit", "CloseAlready"} /\ q \in {R, K, AC} THEN rel \cup {q} ELSE rel
